@@ -26,13 +26,34 @@ def parse_d(tokens):
     return (name, bb, isdec, kids), rest[1:]
 
 
+class UserComposite(py_trees.composites.Composite):
+    """a composite of the user's own making (not a Sequence / Selector / Parallel)"""
+
+    def tick(self):
+        for child in self.children:
+            for node in child.tick():
+                yield node
+        self.status = py_trees.common.Status.SUCCESS
+        yield self
+
+
 def build_d(d):
     name, bb, isdec, kids = d
     children = [build_d(k) for k in kids]
     if isdec:
         b = py_trees.decorators.PassThrough(name=name, child=children[0])
     elif children:
-        b = py_trees.composites.Sequence(name=name, memory=True, children=children)
+        # every kind of composite, including a user-defined one deriving directly from Composite
+        C = py_trees.composites
+        kind = (len(name) + len(children)) % 4
+        if kind == 0:
+            b = C.Sequence(name=name, memory=True, children=children)
+        elif kind == 1:
+            b = C.Selector(name=name, memory=False, children=children)
+        elif kind == 2:
+            b = C.Parallel(name=name, policy=py_trees.common.ParallelPolicy.SuccessOnAll(), children=children)
+        else:
+            b = UserComposite(name=name, children=children)
     else:
         b = py_trees.behaviours.Success(name=name)
     b.blackbox_level = py_trees.common.BlackBoxLevel(bb)
